@@ -539,24 +539,28 @@ fn roa_menu(state_has_a: bool) -> (Vec<RoaEntry>, Vec<RoaEntry>) {
 fn requests(thorough: bool) -> Vec<Req> {
     let mut reqs = Vec::new();
     let (adds, dels) = roa_menu(true);
-    // all multisets of <= 2 (3 thorough) entries from adds ∪ dels
+    // all multisets of <= 2 (4 thorough) entries from adds ∪ dels
     #[derive(Clone)]
     enum E { A(RoaEntry), D(RoaEntry) }
     let menu: Vec<E> = adds.iter().cloned().map(E::A).chain(dels.iter().cloned().map(E::D)).collect();
-    let max = if thorough { 3 } else { 2 };
+    let max = if thorough { 4 } else { 2 };
     let n = menu.len();
     let mut idx: Vec<Vec<usize>> = Vec::new();
-    for i in 0..n {
-        idx.push(vec![i]);
-        for j in i..n {
-            idx.push(vec![i, j]);
-            if max >= 3 {
-                for k in j..n {
-                    idx.push(vec![i, j, k]);
-                }
-            }
+    // all non-decreasing index sequences of length 1..=max (= multisets)
+    fn extend(from: usize, n: usize, left: usize, cur: &mut Vec<usize>, out: &mut Vec<Vec<usize>>) {
+        if !cur.is_empty() {
+            out.push(cur.clone());
+        }
+        if left == 0 {
+            return;
+        }
+        for i in from..n {
+            cur.push(i);
+            extend(i, n, left - 1, cur, out);
+            cur.pop();
         }
     }
+    extend(0, n, max, &mut Vec::new(), &mut idx);
     for sel in idx {
         let mut add = Vec::new();
         let mut del = Vec::new();
@@ -653,6 +657,29 @@ fn states() -> Vec<(&'static str, Box<dyn Fn() -> Result<World, String>>)> {
             Op::Roa { ca: c(), add: vec![c01::ROA_A.into()], del: vec![] },
             Op::RollInit { ca: c() },
         ]))),
+        // the old key still publishes (activation done, revocation pending or done)
+        ("rolled", Box::new(move || with(100, 90, vec![
+            Op::Roa { ca: c(), add: vec![c01::ROA_A.into()], del: vec![] },
+            Op::BgpsecAdd { ca: c(), asn: 65000, csr: 0 },
+            Op::RollInit { ca: c() },
+            Op::RollActivate { ca: c() },
+        ]))),
+        // two resource classes (two parents) holding overlapping resources
+        ("two-parents", Box::new(move || {
+            let mut w = c01::build_w3_two_parents(c01::world_cfg(100, 90))?;
+            for op in [
+                Op::Roa { ca: c(), add: vec![c01::ROA_A.into()], del: vec![] },
+                Op::AspaSet { ca: c(), customer: 65000, providers: vec![65001] },
+                Op::Entitle { parent: "parent".into(), child: c(), res: r3("", "10.1.0.0/16", "2001:db8::/48") },
+            ] {
+                let o = w.apply_pumped(&op);
+                if !o.ok {
+                    return Err(format!("state set-up op {op} failed: {:?}", o.err));
+                }
+            }
+            w.settle()?;
+            Ok(w)
+        })),
     ]
 }
 
@@ -756,7 +783,7 @@ pub fn run(tier: &Tier, _args: &[String]) -> i32 {
         "states": 6,
         "transitions": evaluations,
         "traces_validated_against_impl": evaluations,
-        "rule": "every request of the finite menus (ROA deltas = all multisets of <=2 (quick) / <=3 (thorough) entries out of 11 additions and 3 removals; ASPA set/delete/provider updates; BGPsec add (valid and corrupted CSR)/delete; child add/update with 6 resource sets x 2 handles) x 6 CA states (empty, configured, configured-then-shrunk, configured-then-AS-lost, aggregated, rolling); each executed on a forked copy; non-trivial = every case (each has an accept/refuse expectation and a before/after comparison)",
+        "rule": "every request of the finite menus (ROA deltas = all multisets of <=2 (quick) / <=4 (thorough) entries out of 11 additions and 3 removals; ASPA set/delete/provider updates; BGPsec add (valid and corrupted CSR)/delete; child add/update with 6 resource sets x 2 handles) x 8 CA states (empty, configured, configured-then-shrunk, configured-then-AS-lost, aggregated, rolling, rolled, two parents); each executed on a forked copy; non-trivial = every case (each has an accept/refuse expectation and a before/after comparison)",
         "samples": samples,
         "exhaustive": true,
         "outcomes": outcomes,
